@@ -113,6 +113,9 @@ func New(maxConcurrent int, chQqueueSize int, v ...interface{}) *TaskPool {
 				if tp.fork(f) {
 					continue
 				}
+				// no worker was started: give back what fork added to the counter,
+				// or the pool loses one unit of parallelism for ever.
+				atomic.AddInt64(&tp.concurrent, -1)
 
 				if f != nil {
 					tp.caller(f)
